@@ -83,7 +83,7 @@ func closeAsker(q *reqSpec, s *resSpec) string {
 	switch {
 	case q.Close:
 		return "req-close"
-	case q.Proto == "HTTP/1.0":
+	case q.Proto == "HTTP/1.0" && !q.KeepAlive:
 		return "req-http10"
 	case s.Framing == "eof":
 		return "res-eof"
@@ -140,6 +140,12 @@ func evaluate(r *vh.Run, c connCase, p *plan, v h1x.View, got []h1x.Received, se
 	for i, m := range resps {
 		q, s := p.Reqs[i], p.Ress[i]
 		cls := "res=" + s.Framing
+		if q.HangUp {
+			// the origin hung up: one well-formed response was received (what it
+			// says is C03's subject)
+			r.Count("origin_hangups_answered_with_status_"+strconv.Itoa(m.Status), 1)
+			continue
+		}
 		if m.Status != s.Status {
 			add("response-status", cls, fmt.Sprintf("response #%d: origin sent status %d, client received %d (order/identity)", i, s.Status, m.Status))
 			continue
@@ -198,7 +204,19 @@ func evaluate(r *vh.Run, c connCase, p *plan, v h1x.View, got []h1x.Received, se
 		q := p.Reqs[i]
 		cls := "req=" + q.Framing
 		ms := byID[i]
-		if len(ms) != 1 {
+		if q.HangUp {
+			// RFC 7230 6.3.1: a proxy must not automatically retry a
+			// non-idempotent request; idempotent ones may legitimately arrive
+			// twice (http.Transport retries them on a reused connection)
+			nonIdem := q.Method == "POST" || q.Method == "PATCH"
+			if nonIdem && len(ms) != 1 {
+				add("request-count", "non-idempotent-resent", fmt.Sprintf("the origin hung up on %s request #%d without answering and received it %d times (one-to-one; a non-idempotent request must not be sent again)", q.Method, i, len(ms)))
+			}
+			if len(ms) == 0 {
+				add("request-count", cls, fmt.Sprintf("origin never received request #%d", i))
+				continue
+			}
+		} else if len(ms) != 1 {
 			add("request-count", cls, fmt.Sprintf("origin received request #%d %d times (one-to-one)", i, len(ms)))
 			if len(ms) == 0 {
 				continue
@@ -275,6 +293,9 @@ func evaluate(r *vh.Run, c connCase, p *plan, v h1x.View, got []h1x.Received, se
 			if c.TCP {
 				tr = "tcp"
 			}
+			if c.Kind == "aged" {
+				tr = "mem-aged-upstream"
+			}
 			asker := "none"
 			if i == p.Last {
 				asker = closeAsker(q, s)
@@ -288,6 +309,12 @@ func evaluate(r *vh.Run, c connCase, p *plan, v h1x.View, got []h1x.Received, se
 			qf := q.Framing
 			if q.Early != "" {
 				qf += "(answered-early," + q.Early + ")"
+			}
+			if q.HangUp {
+				qf += "(origin-hangs-up)"
+			}
+			if q.Proto == "HTTP/1.0" && q.KeepAlive {
+				qf += "(http10-keep-alive)"
 			}
 			r.Class(fmt.Sprintf("%s>%s|%s|%s|%s|close=%s|%s", qf, rf, sizeBucket(sz), mode, pos, asker, tr))
 			r.Count("exchanges_verified", 1)
